@@ -437,6 +437,8 @@ func NewChecker(o CRLOpts) (*crl.CRLRevocationChecker, error) {
 		return nil, werr
 	}
 	if r.err != nil {
+		// like caddy's LoadModule: a module whose Provision failed is cleaned up
+		Call("Cleanup after failed Provision", DefaultWatchdog, func() int { c.Cleanup(); return 0 })
 		return nil, r.err
 	}
 	if !o.NoSettle {
